@@ -11,9 +11,12 @@
      design_ok          the += raises ValueError (broadcast) when the row slice is cut by the
                         end of the matrix, i.e. an occurrence with a + len > rows
    nitime/algorithms/event_related.py  fir (12-58)
+     tabulateT, gramT   the design as an array (list of its columns = X^T) and X^T X (integer entries)
      fir                pinv(X^T X) @ X^T @ y ; `pinv` (scipy.linalg.pinv) is NOT modelled: it is an
-                        argument of the model (a Section variable with its contract in the proofs;
-                        in the correspondence the harness passes scipy's own output as data)
+                        argument of the model (in the theorems: any function satisfying `pinv_contract`,
+                        Proofs/EventRelatedFir.v; in the correspondence: the table of the (input, output)
+                        pairs of scipy's pinv recorded while the implementation ran, looked up by the
+                        model's own Gram matrix, Check/C19K.v)
    nitime/analysis/event_related.py
      pad                __init__ 57-91: zeros_before (int(offset)) / zeros_after (int(len_et)) around
                         data and events; a negative offset makes np.zeros raise ValueError
